@@ -684,6 +684,10 @@ pub fn payloads(g: &mut G, tag: &str) -> Vec<(&'static str, Vec<u8>)> {
         ("divider-like", format!("~~~~~~~~EXECDIVIDER::x::0::0\n{}\n", tag).into_bytes()),
         ("divider-prefix-only", format!("{} ~~~~~~~~EXECDIVIDER::\n", tag).into_bytes()),
         ("placeholders", format!("{{shell_expression}} {{persist_state}} {{name}} {} $?\n", tag).into_bytes()),
+        ("ws-unterminated", format!("{}-a\n  {}-indented-last", tag, tag).into_bytes()),
+        ("ws-only-unterminated", format!("{}-a\n \t ", tag).into_bytes()),
+        ("ws-lines", format!("  {}-lead\n{}-trail  \n\t{}\t\n   \n\x0c{}\x0b\n", tag, tag, tag, tag).into_bytes()),
+        ("single-space", b" ".to_vec()),
         ("big-200k", big),
         ("crlf-2000", crlf_many),
         ("random", rnd),
